@@ -28,24 +28,25 @@ def make_fx(f, l):
     class Fx:
         __slots__ = ('lo', 'hi')
         F, L = f, l
+        EACH = False          # True (class FxT): every multiplication is truncated at once, as for secure scalars
 
         def __init__(self, lo, hi=None):
             self.lo = Fraction(lo)
             self.hi = self.lo if hi is None else Fraction(hi)
 
         # -- conversions of public operands ---------------------------------------------------
-        @staticmethod
-        def of(x):
+        @classmethod
+        def of(cls, x):
             if isinstance(x, Fx):
                 return x
             if isinstance(x, bool):
-                return Fx(unit if x else 0)
+                return cls(unit if x else 0)
             if isinstance(x, int):
-                return Fx(x * unit)
+                return cls(x * unit)
             if isinstance(x, float):          # public floats are rounded to the fixed-point grid first
-                return Fx(round(x * unit))
+                return cls(round(x * unit))
             if hasattr(x, 'item') and not hasattr(x, '__setitem__'):            # numpy scalar (not ndarray)
-                return Fx.of(x.item())
+                return cls.of(x.item())
             return NotImplemented
 
         def point(self):
@@ -60,38 +61,39 @@ def make_fx(f, l):
 
         # -- arithmetic -----------------------------------------------------------------------
         def __add__(self, o):
-            o = Fx.of(o)
+            o = self.of(o)
             if o is NotImplemented:
                 return o
-            return Fx(self.lo + o.lo, self.hi + o.hi)
+            return type(self)(self.lo + o.lo, self.hi + o.hi)
 
         __radd__ = __add__
 
         def __neg__(self):
-            return Fx(-self.hi, -self.lo)
+            return type(self)(-self.hi, -self.lo)
 
         def __pos__(self):
             return self
 
         def __sub__(self, o):
-            o = Fx.of(o)
+            o = self.of(o)
             if o is NotImplemented:
                 return o
-            return Fx(self.lo - o.hi, self.hi - o.lo)
+            return type(self)(self.lo - o.hi, self.hi - o.lo)
 
         def __rsub__(self, o):
-            o = Fx.of(o)
+            o = self.of(o)
             if o is NotImplemented:
                 return o
             return o - self
 
         def __mul__(self, o):
             """Exact product in units (no truncation: see tr())."""
-            o = Fx.of(o)
+            o = self.of(o)
             if o is NotImplemented:
                 return o
             c = [a * b / unit for a in (self.lo, self.hi) for b in (o.lo, o.hi)]
-            return Fx(min(c), max(c))
+            r = type(self)(min(c), max(c))
+            return r.tr() if self.EACH else r
 
         __rmul__ = __mul__
 
@@ -100,13 +102,13 @@ def make_fx(f, l):
                 return self
             if self.hi <= 0:
                 return -self
-            return Fx(0, max(-self.lo, self.hi))
+            return type(self)(0, max(-self.lo, self.hi))
 
         def tr(self):
             """One secure truncation of the exact value: floor or ceil (in units)."""
             if max(abs(self.lo), abs(self.hi)) >= bound:
                 raise Skip('fixed-point value out of range')
-            return Fx(math.floor(self.lo), math.ceil(self.hi))
+            return type(self)(math.floor(self.lo), math.ceil(self.hi))
 
         def check(self):
             if max(abs(self.lo), abs(self.hi)) >= bound:
@@ -115,7 +117,7 @@ def make_fx(f, l):
 
         # -- comparisons (only of determined values) --------------------------------------------
         def _cmp(self, o):
-            o = Fx.of(o)
+            o = self.of(o)
             if self.hi < o.lo:
                 return -1
             if self.lo > o.hi:
@@ -150,6 +152,7 @@ def make_fx(f, l):
                 return self.lo != 0
             raise Skip('truth value of undetermined fixed-point value')
 
+    Fx.T = type('FxT', (Fx,), {'__slots__': (), 'EACH': True})
     return Fx
 
 
